@@ -77,13 +77,14 @@ class Build:
         sys.path.insert(0, os.path.join(VERIF, 'vlib'))
         import unionfix
         sites, macros = unionfix.rewrite_dir(self.uf)
-        info = {'source_hash': self.hash, 'unionfix_sites': sum(sites.values()), 'unionfix_macro_sites': macros}
+        hoisted = unionfix.hoist_basic(self.uf)
+        info = {'source_hash': self.hash, 'unionfix_sites': sum(sites.values()), 'unionfix_macro_sites': macros, 'hoist_basic_sites': hoisted}
         # 2.5 native build of the unmodified snapshot (guard on) + of the rewritten tree
         natsrc = os.path.join(self.dir, 'natsrc')
         shutil.copytree(self.raw, natsrc)
         ufsrc = os.path.join(self.dir, 'ufsrc')
         shutil.copytree(self.raw, ufsrc)
-        for f in glob.glob(self.uf + '/*.c'):
+        for f in glob.glob(self.uf + '/*.[ch]'):
             shutil.copy(f, ufsrc)
 
         def mk(d):
@@ -553,7 +554,7 @@ def run_check(prop, tier, seed, meta, instances, build, level='model_checking', 
         'known_findings_hit': [k['what'] for _, k in knownhits],
         'finding_probes': {r['name']: r.get('probe') for r in results if 'probe' in r},
         'source_hash': build.hash,
-        'unionfix': {k: build.info.get(k) for k in ('unionfix_sites', 'unionfix_macro_sites', 'unionfix_difftest')},
+        'unionfix': {k: build.info.get(k) for k in ('unionfix_sites', 'unionfix_macro_sites', 'hoist_basic_sites', 'unionfix_difftest')},
         'functions_encoded': meta.get('functions', []),
         'bounds': meta.get('bounds', {}),
         'outside_claim': meta.get('outside', []),
